@@ -38,9 +38,9 @@ Lemma tinv_set_rcv_irs t v : tinv t -> tinv (set_rcv_irs t v).
 Proof. intros []. constructor; tcb_cbn; assumption. Qed.
 Lemma tinv_set_st t v : tinv t -> is_synsent v = is_synsent (st t) -> tinv (set_st t v).
 Proof. intros [] H. constructor; tcb_cbn; try assumption. rewrite H. assumption. Qed.
-Lemma tinv_set_snd_window t w a b : tinv t -> is_synsent (st t) = false -> w = DEFAULT_WND ->
+Lemma tinv_set_snd_window t w a b : tinv t -> is_synsent (st t) = false -> w = DEFAULT_WND -> u32 a ->
   tinv (set_snd_window t w a b).
-Proof. intros [] H ->. constructor; tcb_cbn; try assumption. rewrite H. reflexivity. Qed.
+Proof. intros [] H -> Ha. constructor; tcb_cbn; try assumption. rewrite H. reflexivity. Qed.
 Lemma tinv_set_fin_pending t v : tinv t -> is_synsent (st t) = false -> tinv (set_fin_pending t v).
 Proof.
   intros [] H. constructor; tcb_cbn; try assumption. rewrite H in *. assumption.
@@ -75,6 +75,8 @@ Lemma enqueue_snd_nxt t h : snd_nxt (enqueue t h) = snd_nxt t.
 Proof. unfold enqueue. destruct (_ || _); reflexivity. Qed.
 Lemma enqueue_snd_una t h : snd_una (enqueue t h) = snd_una t.
 Proof. unfold enqueue. destruct (_ || _); reflexivity. Qed.
+Lemma enqueue_snd_wl1 t h : snd_wl1 (enqueue t h) = snd_wl1 t.
+Proof. unfold enqueue. destruct (_ || _); reflexivity. Qed.
 Lemma enqueue_snd_wnd t h : snd_wnd (enqueue t h) = snd_wnd t.
 Proof. unfold enqueue. destruct (_ || _); reflexivity. Qed.
 Lemma enqueue_fin_pending t h : fin_pending (enqueue t h) = fin_pending t.
@@ -104,7 +106,7 @@ Proof.
   - assert (H1 : tinv (remove_acked (set_snd_una t (h_ack h)) (h_ack h))).
     { apply tinv_remove_acked. apply tinv_set_snd_una; [assumption | apply Hh]. }
     destruct (_ || _); [|exact H1].
-    apply tinv_set_snd_window; [exact H1 | exact Hst |].
+    apply tinv_set_snd_window; [exact H1 | exact Hst | | apply Hh].
     apply Hh. rewrite Hack. reflexivity.
 Qed.
 Lemma ack_est_st t h : st (fst (ack_est t h)) = st t.
@@ -134,7 +136,7 @@ Proof.
     destruct (mod_bounded _ _ _ _ _).
     + set (t1 := set_snd_window (set_st t Established) (h_wnd h) (h_seq h) (h_ack h)).
       assert (H1 : tinv t1).
-      { apply tinv_set_snd_window; [| reflexivity | exact Hw].
+      { apply tinv_set_snd_window; [| reflexivity | exact Hw | apply Hh].
         apply tinv_set_st; [exact Hi | rewrite Hst; reflexivity]. }
       pose proof (tinv_ack_est t1 h H1 Hh Hack eq_refl) as H2.
       destruct (ack_est t1 h) as [t2 r]. cbn [fst] in H2. destruct r; exact H2.
@@ -177,7 +179,8 @@ Proof.
   set (t1 := set_snd_window _ _ _ _).
   assert (H1 : forall s, is_synsent s = false -> tinv (set_st t1 s)).
   { intros s Hs. destruct Hi. constructor; subst t1; tcb_cbn; auto with tinv.
-    rewrite Hs. exact Hw. }
+    - apply Hh.
+    - rewrite Hs. exact Hw. }
   destruct (mod_gt _ _); cbn [fst].
   - apply tinv_enqueue; [apply H1; reflexivity | apply hok_ack_hdr; apply H1; reflexivity].
   - apply tinv_enqueue; [apply H1; reflexivity|].
